@@ -103,6 +103,7 @@ func doJob(job JobCfg, fmts []string, facts, oracle bool) Result {
 	if oracle {
 		runOracles(job, &res)
 		checkWriter(job, &res)
+		checkArgsRejected(job, &res)
 		if fastOn && fastFixedPointFn != nil {
 			fastFixedPointFn(job, &res)
 		}
@@ -304,6 +305,9 @@ func runOracles(job JobCfg, res *Result) {
 		}
 		if d := checkFieldNames(c, job); d != "" {
 			res.Checks["C13"] = d
+		}
+		if d := checkPanicMsgs(c, job); d != "" {
+			res.Checks["C07"] = d
 		}
 		d, own := checkSolo(job, c)
 		if d != "" && res.Checks["C20"] == "" {
